@@ -196,3 +196,35 @@ fn k_slice_builder_write_slice_with_zst() {
         assert!(MADE as usize == n && GONE as usize == n, "[heap] exactly the elements that were created are destructed");
     }
 }
+
+
+/// the same for PLAIN-DATA elements under a header that has a destructor (and the reverse): what is destructed does not depend on whether
+/// the element type needs dropping
+#[kani::proof]
+#[kani::unwind(6)]
+fn k_slice_builder_abandon_plain_elements() {
+    unsafe {
+        HD = 0; ED = [0; 4];
+        let cx = Context::new();
+        let n: usize = kani::any(); kani::assume(n <= 3);
+        let k: usize = kani::any(); kani::assume(k <= n);
+        if kani::any() {
+            let mut sb = GcSliceWithHeaderBuilder::<Static<Hdr>, Static<u8>>::new(n).unwrap_static_header().write_header(Hdr).unwrap_static_element();
+            let base = sb.slice_ptr() as *mut u8;
+            let mut i = 0;
+            while i < k { base.add(i).write(i as u8); sb.init_length = i + 1; i += 1; }
+            drop(sb);
+            assert!(HD == 1, "[heap] the header of an abandoned builder is destructed exactly once although its elements are plain data");
+        } else {
+            let mut sb = GcSliceWithHeaderBuilder::<Static<u8>, Static<El>>::new(n).unwrap_static_header().write_header(7u8).unwrap_static_element();
+            let base = sb.slice_ptr() as *mut El;
+            let mut i = 0;
+            while i < k { base.add(i).write(El(i as u8)); sb.init_length = i + 1; i += 1; }
+            drop(sb);
+            let mut j = 0;
+            while j < 3 { assert!(ED[j] == if j < k { 1 } else { 0 }, "[heap] exactly the initialised prefix is destructed although the header is plain data"); j += 1; }
+        }
+        assert!(cx_all(&cx).is_none());
+        core::mem::forget(cx);
+    }
+}
